@@ -70,7 +70,7 @@ def _socket_job(args):
         R = bus.Client(d, fd_passing=True); bus.hello(R)
         for case in range(ncases):
             nsig = rng.choice([3, 5, 8, 20, 40])
-            use_fd = rng.random() < 0.5
+            use_fd = rng.random() < 0.5 and case >= 6          # (the first six cases of every job cut inside `BEGIN\r\n`, see below)
             msgs, tokens, fdmsg, fdset = [method_call(1, BUS, BUS_PATH, BUS, "Hello").marshal()], [], None, []
             many = use_fd and rng.random() < 0.5          # several descriptor-carrying messages, often one right after the other
             for k in range(nsig):
@@ -101,7 +101,10 @@ def _socket_job(args):
             for b in msgs:
                 starts.append(starts[-1] + len(b))
             kind = rng.choice(["one", "after-begin", "fd-header", "random", "blocks", "begin-plus-tail"] + (["fd-split", "fd-split"] if fdmsg is not None else []))
-            if kind == "one": cuts = []
+            if case < 6 and not pre:
+                kind = "begin-split"                   # a read boundary inside the BEGIN line itself: B|EGIN\r\n … BEGIN\r|\n
+            if kind == "begin-split": cuts = [case % 6 + 1] + ([7] if rng.random() < 0.5 else [])
+            elif kind == "one": cuts = []
             elif kind == "after-begin": cuts = [7]
             elif kind == "fd-header" and fdmsg is not None:
                 cuts = [starts[fdmsg] + rng.randint(1, 16)] + ([starts[fdmsg]] if rng.random() < 0.5 else [])
@@ -122,8 +125,8 @@ def _socket_job(args):
             if len(fdset) > 1:
                 cuts += [starts[w] for w in fdset]
             cuts = sorted(set(c for c in cuts if 0 < c < n))
-            pause = rng.choice([0.0, 0.004, 0.004]) if kind != "fd-split" else 0.03
-            pause_at = None if kind != "fd-split" else inner       # (only the head of the split message is given time to be read alone)
+            pause = rng.choice([0.0, 0.004, 0.004]) if kind not in ("fd-split", "begin-split") else 0.03
+            pause_at = inner if kind == "fd-split" else (cuts[0] if kind == "begin-split" and cuts else None)   # (the head is given time to be read alone)
             S = bus.Client(d, fd_passing=use_fd, begin=False)
             fdfiles = []
             try:
